@@ -83,7 +83,10 @@ def label_vector(rng):
     y = rng.choice([3, 7, 20, 21, 100][:c], size=n)
   y = np.asarray(y, dtype=np.int64)
   frac = rng.choice([0.0, 0.1, 0.3, 0.5])
-  y[rng.rand(n) < frac] = -1
+  unk = rng.rand(n) < frac
+  # every negative label means "unknown" (-1 is only the customary marker)
+  markers = [[-1], [-1, -2], [-7, -1, -3], [-5]][int(rng.randint(4))]
+  y[unk] = rng.choice(markers, size=int(unk.sum()))
   return y
 
 
